@@ -6,14 +6,16 @@ CONSTANTS
   FixStale = TRUE
   ZlibDetects = TRUE
   MaxMain = 2
-  MaxFaults = 1
+  MaxFaults = 0
   MaxBumps = 1
-  MaxHeard = 1
+  MaxHeard = 2
   MaxAge = 0
-  AllowSet = TRUE
-  HeardStale = TRUE
-  HeardAcks = TRUE
+  AllowSet = FALSE
+  HeardStale = FALSE
+  HeardAcks = FALSE
 CONSTRAINT Bound
+INVARIANT TypeOK
 INVARIANT ResultAsOfRead
+INVARIANT NeverMixed
 CHECK_DEADLOCK TRUE
 VIEW View
